@@ -532,3 +532,58 @@ def check_application_purity(c: Check, rule: str, base_paths, floor: int) -> int
                              k.name, mname, ', '.join('self.' + a for a in changed)), m.loc())
     c.floor(rule, 'application methods of primitives analysed', n, floor)
     return n
+
+
+# ------------------------------------------------------------------ PLUMB sweep: constructor arguments in their roles
+
+def sweep_cross_wiring(c: Check, rule: str, prefixes, floor: int) -> int:
+    """At every construction `K(a1, .., an)` inside the given packages: when the expression given for parameter p
+    names (as a variable, or as an attribute `x._q` / `x.q`) another parameter q of the same constructor, and does
+    not name p, while the expression given for q does not name q either, the two arguments are cross-wired - each
+    layer (SDV -> DDV -> ADV -> primitive) hands the matcher where the transformer belongs, the replacement where the
+    pattern belongs. Names only count when both are parameters of K, so a renaming between layers is never judged."""
+    from .. import util
+    ix = c.ix
+    judged = 0
+
+    def names_in(e) -> set:
+        out = set()
+        for x in ast.walk(e):
+            if isinstance(x, ast.Name):
+                out.add(x.id.lstrip('_'))
+            elif isinstance(x, ast.Attribute):
+                out.add(x.attr.lstrip('_'))
+        return out
+
+    for name in ix.all_module_names():
+        if not any(name == p or name.startswith(p + '.') for p in prefixes):
+            continue
+        m = ix.module(name)
+        for node in ast.walk(m.tree):
+            if not isinstance(node, ast.Call):
+                continue
+            f = m.enclosing_func(node)
+            try:
+                k = ix.callee(m, f, node)
+            except Exception:
+                k = None
+            if not isinstance(k, ClassDef):
+                continue
+            b = util.ctor_call_args(ix, k, node)
+            if not b or len(b) < 2:
+                continue
+            params = set(b)
+            mention = {p: names_in(a) & params for p, a in b.items()}
+            for p, ms in sorted(mention.items()):
+                if p in ms or not ms:
+                    continue
+                for q in sorted(ms):
+                    if q in mention and q not in mention[q] and p in mention[q]:
+                        judged += 1
+                        c.bad(rule, 'cross-wired/%s(%s<->%s)@%s' % (k.key, p, q, f.key if f else name),
+                              '%s is constructed with %s for its parameter %s and %s for its parameter %s: the two '
+                              'are given in each other\'s place' % (k.name, unparse(b[p])[:50], p, unparse(b[q])[:50], q),
+                              '%s:%d' % (m.relpath, node.lineno))
+            judged += sum(1 for p, ms in mention.items() if p in ms)
+    c.floor(rule, 'constructor arguments that name their own parameter in %s' % ', '.join(prefixes), judged, floor)
+    return judged
